@@ -1,14 +1,11 @@
-import sys, time
+import sys, traceback
 sys.path.insert(0,'/verif')
 from mirsym.harness import Run
 from props import c15
 run = Run('C15'); run.build()
-n=int(sys.argv[1])
 sub=run.sub()
-t=time.time()
-import cProfile, pstats
-if len(sys.argv)>2:
-    cProfile.run('c15.part_a(sub,n)','/tmp/prof.out'); pstats.Stats('/tmp/prof.out').sort_stats('cumtime').print_stats(25)
-else:
-    c15.part_a(sub, n)
-print(n, time.time()-t, len(sub.queries), sub.exec_stats, sub.inconclusive[:3])
+try:
+    c15.part_a(sub, 8)
+except Exception:
+    traceback.print_exc()
+print(sub.inconclusive[:3], [v['what'][:200] for v in sub.violations][:3])
